@@ -412,6 +412,49 @@ func machine(sys string, concurrentOnly bool) func(*rapid.T) {
 	}
 }
 
+// sweep resolves every root of a universe once on one client and resolver, in a
+// drawn order and then in the reverse order: every ordered pair (earlier root,
+// later root) of the universe is exercised, which the random walk of machine
+// only samples.
+func sweep(sys string) func(*rapid.T) {
+	return func(t *rapid.T) {
+		u := universeGen(sys).Draw(t, "universe")
+		h := histCase{Universe: u}
+		r, err := newRunner(u)
+		if err != nil {
+			t.Fatalf("generator produced a universe the schema rejects: %v\n%s", err, u.Text())
+		}
+		if len(r.roots) < 2 {
+			return
+		}
+		order := rapid.Permutation(seq(len(r.roots))).Draw(t, "order")
+		if len(order) > 16 {
+			order = order[:16]
+		}
+		for pass := 0; pass < 2; pass++ {
+			for k := range order {
+				i := order[k]
+				if pass == 1 {
+					i = order[len(order)-1-k]
+				}
+				a := action{Kind: "resolve", Root: i}
+				h.Actions = append(h.Actions, a)
+				rec.SetCase(h)
+				if obs, exp := r.apply(a); obs != "" {
+					if cl := knownClass(h, obs); cl != "" {
+						rec.ExcludedKnown(cl)
+						return
+					}
+					rec.Fail(t, h, obs, exp)
+				}
+			}
+		}
+		b, _ := json.Marshal(h)
+		rec.NonTrivial(string(b))
+		rec.ClassN("actions", len(h.Actions))
+	}
+}
+
 func TestCorpus(t *testing.T) {
 	rec.SetCheck("corpus")
 	for _, fd := range kf.For("C05") {
@@ -431,6 +474,11 @@ func TestHistories(t *testing.T) {
 			rec.Check(t, "race/"+sys, ev.N(10, 4000), machine(sys, true))
 		} else {
 			rec.Check(t, "history/"+sys, ev.N(90, 30000), machine(sys, false))
+			nsweep := ev.N(120, 40000)
+			if sys == "maven" {
+				nsweep = ev.N(260, 80000) // exclusions interact across roots only in rare shapes
+			}
+			rec.Check(t, "sweep/"+sys, nsweep, sweep(sys))
 		}
 	}
 }
